@@ -8,6 +8,7 @@ import (
 	"encoding/json"
 	"fmt"
 	"os"
+	"runtime/debug"
 	"strings"
 	"sync"
 	"sync/atomic"
@@ -299,6 +300,8 @@ func stabilityTest(b []byte) string {
 // Run
 
 func runC02(r *enumlib.Run) {
+	// the live heap is a few megabytes and every case allocates: collect less often
+	defer debug.SetGCPercent(debug.SetGCPercent(800))
 	c := newCollector()
 	spaces := c02Spaces(r.Thorough())
 	for ord, s := range spaces {
@@ -366,16 +369,17 @@ func publishTallies(r *enumlib.Run, c *collector) {
 	}
 }
 
-// stabilitySpace: every corpus frame plus all its single-octet substitutions. Case index: frames in
-// corpus order; per frame index 0 is the frame itself, 1+256*position+value a substitution.
+// stabilitySpace: every corpus frame plus all its single-octet substitutions. Case index: first the
+// unmodified frames in corpus order, then per frame 256*position+value for its substitutions (so
+// that the stored example of a class is an unmodified frame whenever one shows it).
 func stabilitySpace(r *enumlib.Run, c *collector, ord int) {
 	corpus := refenc.Corpus()
 	name := "decode-encode-decode/corpus+single-octet-substitutions"
 	starts := make([]int64, len(corpus))
-	var total int64
+	total := int64(len(corpus))
 	for i, nf := range corpus {
 		starts[i] = total
-		total += 1 + int64(len(nf.Bytes))*256
+		total += int64(len(nf.Bytes)) * 256
 	}
 	var evals, skipped int64
 	var expired int32
@@ -416,7 +420,7 @@ func stabilitySpace(r *enumlib.Run, c *collector, ord int) {
 			orig, fname := corpus[fi].Bytes, corpus[fi].Name
 			buf := append([]byte(nil), orig...)
 			judge := func(caseIdx int64, b []byte) {
-				if caseIdx&0x3FF == 0 || caseIdx == starts[fi] {
+				if caseIdx&0x3FF == 0 || caseIdx < int64(len(corpus)) {
 					current[shard%len(current)].Store(&watched{time.Now(), hex.EncodeToString(b)})
 				}
 				o := judgeStability(b)
@@ -435,7 +439,7 @@ func stabilitySpace(r *enumlib.Run, c *collector, ord int) {
 					hashes = append(hashes, k)
 				}
 			}
-			judge(starts[fi], buf)
+			judge(int64(fi), buf)
 			for pos := range orig {
 				for x := 0; x < 256; x++ {
 					if byte(x) == orig[pos] {
@@ -443,7 +447,7 @@ func stabilitySpace(r *enumlib.Run, c *collector, ord int) {
 						continue
 					}
 					buf[pos] = byte(x)
-					judge(starts[fi]+1+int64(pos)*256+int64(x), buf)
+					judge(starts[fi]+int64(pos)*256+int64(x), buf)
 				}
 				buf[pos] = orig[pos]
 			}
